@@ -45,9 +45,27 @@ type dag struct {
 	byHex                                      map[string]*gEvent
 	txSeq                                      int
 	txBody                                     map[int][]byte
+	maxElection, coinSteps                     int // longest election (rounds) seen by the reference node; steps with an election in or past its coin round
 	oldRoundEvents, lateWitnesses              int // events / witnesses created into a round the reference node had already processed
 	outOfOrderSteps, witnessIntoWaitingDecided int
 	guidedLateWitnesses                        int
+}
+
+// noteElection: coverage of elections that reach a coin round (a round still undecided four or
+// more rounds later).
+func (d *dag) noteElection(ref *hnode) {
+	for _, pr := range ref.h.PendingRounds.GetOrderedPendingRounds() {
+		if !pr.Decided {
+			gap := ref.store.LastRound() - pr.Index
+			if gap > d.maxElection {
+				d.maxElection = gap
+			}
+			if gap >= 4 {
+				d.coinSteps++
+			}
+			break
+		}
+	}
 }
 
 func newDag(rng *rand.Rand, n0, extra int) *dag {
@@ -525,6 +543,8 @@ type genOpts struct {
 	byz         []int    // creators with lying clocks
 	txKinds     bool     // exotic transaction payloads
 	burst       bool     // bursts of events without other-parent
+	eagerPause  bool     // an eager joiner is silent around its first round
+	eagerJoiner bool     // joiners create events before their accepted round (no honest core does)
 	joinEarly   bool     // joins are requested in the first steps (long life as validators afterwards)
 	shrink      bool     // a leave that lowers the supermajority, with a silent validator
 	sleeper     bool     // the last creator sleeps from steps/6 on and only wakes to create a witness of a decided round that still waits for an earlier one
@@ -772,7 +792,11 @@ func generate(rng *rand.Rand, o genOpts, c *Case, ref *hnode) *dag {
 			// an honest joiner does not babble before its accepted round (core.addSelfEvent:
 			// "Too early to insert self-event"): its first event appears once the round from which it is
 			// a validator has been reached
-			if fr, ok := ref.store.FirstRound(d.parts[a].peer.ID()); ok && ref.store.LastRound() < fr {
+			// (eagerJoiner: a faulty joiner that babbles as soon as the others accept its events)
+			if fr, ok := ref.store.FirstRound(d.parts[a].peer.ID()); ok && ref.store.LastRound() < fr && !o.eagerJoiner {
+				continue
+			} else if ok && o.eagerJoiner && o.eagerPause && ref.store.LastRound() >= fr-2 && ref.store.LastRound() <= fr+1 {
+				// ... and falls silent around the round from which it is a validator
 				continue
 			}
 		}
@@ -884,6 +908,11 @@ func generate(rng *rand.Rand, o genOpts, c *Case, ref *hnode) *dag {
 		} else if o.burst && rng.Intn(25) == 0 {
 			burstLeft, burstWho = 2+rng.Intn(12), a
 		}
+		if okPeer && o.eagerPause && a >= o.n0 {
+			if fr, ok := ref.store.FirstRound(d.parts[a].peer.ID()); ok && ref.store.LastRound() < fr {
+				okPeer = false // the eager joiner talks to itself: events insertable whatever else is known
+			}
+		}
 		if okPeer && rng.Intn(12) != 0 {
 			op = heads[b]
 			if o.staleOp && rng.Intn(5) == 0 {
@@ -984,6 +1013,7 @@ func generate(rng *rand.Rand, o genOpts, c *Case, ref *hnode) *dag {
 					decidedAfterWaiting[pr.Index] = true
 				}
 			}
+			d.noteElection(ref)
 			if len(decidedAfterWaiting) > 0 {
 				d.outOfOrderSteps++
 				if e, err := ref.store.GetEvent(g.ev.Hex()); err == nil && e.VerifRound() != nil && decidedAfterWaiting[*e.VerifRound()] {
@@ -1249,6 +1279,7 @@ type scenario struct {
 	nodes []*hnode
 	cs    []*Case
 	canon string
+	heldBack int // events held back on purpose in delayed orders (adversarial scenarios)
 }
 
 func (sc *scenario) close() {
